@@ -97,4 +97,7 @@ Definition after_burn_harmless : bool :=
   forallb (fun m => existsb (bytes_eqb m) GenApp.trivial_end_blocks) GenApp.end_blockers_after_burn.
 Theorem burn_is_last_coin_mover : GenApp.burn_in_end_blockers = true /\ after_burn_harmless = true.
 Proof. vm_compute. split; reflexivity. Qed.
+
+Lemma burn_module_account_blocked_fact : GenApp.burn_module_account_blocked = true.
+Proof. reflexivity. Qed.
 Print Assumptions burn_is_last_coin_mover.
